@@ -60,6 +60,13 @@ def r1_exactly_one(ctx):
                 # raised exactly when the count differs from one (canonical form: `count == 1` is False)
                 if isinstance(t, ast.Compare) and len(t.ops) == 1 and isinstance(t.ops[0], ast.Eq) and norm(t.comparators[0]) == "1" and not pol:
                     cnt = expand(pi, t.left)
+                    if isinstance(cnt, ast.Name):
+                        # a counter name re-used for both checks: the closest definition in front of this raise
+                        from sa.astutil import precedes as _prec
+
+                        prior = [(s_, v_) for s_, v_ in local_defs(pi, cnt.id) if v_ is not None and _prec(pi.node, s_, r_)]
+                        if prior:
+                            cnt = expand(pi, prior[-1][1])
                     if isinstance(cnt, ast.Call) and call_name(cnt) == "sum":
                         attrs = {a.attr for a in ast.walk(cnt) if isinstance(a, ast.Attribute) and dotted(a.value) == "self"}
                         if attrs == set(names) and "is not None" in norm(cnt):
